@@ -147,6 +147,12 @@ def tree(rng, n, pools=None, max_arity=4, p_unary=0.15, max_chain=3,
     (probably) discontinuous.  The root is a virtual root with
     root_pieces top-level children (default: random 1..3)."""
     pools = pools or Pools()
+    if n >= 100:
+        # keep the number of constituents of a very long sentence well below
+        # 500 (the export format numbers them 500..999)
+        p_unary = min(p_unary, 0.12)
+        max_chain = min(max_chain, 2)
+        p_root_unary = 0.0
     slots = list(range(n))
     if root_pieces is None:
         root_pieces = rng.choice([1, 1, 2, 2, 3])
